@@ -309,7 +309,7 @@ class C11(Sim):
     FAULT_KINDS = ["prng_handover", "forced_pivot"]
     PROBES = ["leaf_smaller_than_k", "empty_side_after_split", "all_equal_on_axis", "k>=n", "radius_zero",
               "query_on_data_point", "duplicates", "tie_at_kth", "radius_equals_data_distance",
-              "radius_hair_off_data_distance", "rebuild", "outside_query", "int_points", "caller_reuses_its_array", "second_tree_in_between", "caller_query_buffer"]
+              "radius_hair_off_data_distance", "rebuild", "outside_query", "int_points", "caller_reuses_its_array", "second_tree_in_between", "caller_query_buffer", "earlier_answer_kept"]
     QUICK_RUNS = 2500
     THOROUGH_RUNS = 200000
     BLOCK = 20
@@ -770,6 +770,18 @@ class C11(Sim):
         self.budget_use.append(("radius", tr["strategy"], b.steps, b.limit))
         if not out.ok:
             self.exc_violation("radius-exact", "radius", out, ac, info)
+        # the answer of the PREVIOUS radius query, kept by the caller, is still that answer
+        held = getattr(self, "_held_radius", None)
+        if held is not None:
+            obj_, was_ = held
+            try:
+                now_ = sorted(int(i) for i in obj_)
+            except Exception:  # noqa: BLE001
+                now_ = None
+            if now_ != was_:
+                self.violation("radius-exact", "radius", "state_corrupted", "query_radius", "earlier-answer",
+                               "the list returned by an earlier query_radius call read %r, after a later call it reads %r" % (was_[:20], (now_ or [])[:20]))
+            self.probes["earlier_answer_kept"] += 1
         D = brute_distances(self.P0, np.array(ev["pt"], dtype=np.float64))
         if r == 0.0:
             self.probes["radius_zero"] += 1
@@ -802,6 +814,7 @@ class C11(Sim):
                                missing[:10], [float(D[i]) for i in missing[:10]], extra[:10],
                                [float(D[i]) for i in extra[:10]], info))
         self.queries_judged += 1
+        self._held_radius = (out.value, sorted(res))
         return sorted(res)
 
     def finish(self):
